@@ -9,6 +9,9 @@ def handle (args : List String) : Option String :=
   | "serve" :: rest => do
     let o ← handleServe rest
     pure s!"{encInvs o.invs} {encWritten o.written} {encStop o.result}"
+  | "servex" :: rest => do
+    let o ← handleServeX rest
+    pure s!"{encInvs o.invs} {encWritten o.written} {encStop o.result}"
   | ["header", toks] => do
     let toks ← XmppModel.Xml.decToks toks
     pure (expectHeader toks)
